@@ -57,7 +57,13 @@ Silent ==
 (* time passing without a driver `advance`: inside a sleep window the clock moves to the next timer (which then fires) or *)
 (* to the end of the window; after a loop freeze it jumps once the released body has finished (next line: the wait)      *)
 MinAt == LET m == CHOOSE w \in wake : \A v \in wake : w.at <= v.at IN m.at
-ClockTarget == IF \E w \in wake : w.at <= sleepTo THEN MinAt ELSE sleepTo
+\* inside a sleep window the clock stops at the next engine timer (which then fires), at the moment the next recorded line
+\* happened (lines of runs inside the server carry their time: the stack's own timers and senders act during a sleep),
+\* or at the end of the window
+LineAt == IF l <= Len(Tr.log) /\ Tr.log[l].e # "tick" /\ Tr.log[l].at > now THEN Tr.log[l].at
+          ELSE IF l <= Len(Tr.log) /\ Tr.log[l].e = "tick" /\ Tr.log[l].now > now THEN Tr.log[l].now ELSE sleepTo
+Min2(a, b) == IF a < b THEN a ELSE b
+ClockTarget == IF \E w \in wake : w.at <= Min2(sleepTo, LineAt) THEN MinAt ELSE Min2(sleepTo, LineAt)
 CanSleepClock == Live /\ now < sleepTo /\ Quiescent /\ ClockTarget > now
 CanFreezeClock == Live /\ now < freezeTo /\ l <= Len(Tr.log) /\ Ev.e = "wait"
 Clock ==
@@ -108,12 +114,12 @@ CmdLine(e) ==
     [] c[1] = "sleep" -> Ok /\ sleepTo' = now + c[2] /\ UNCHANGED <<vars, tw, freezeTo>>
     [] c[1] = "release_freeze" -> Ok /\ freezeTo' = Tr.now0 + c[2] + 1 /\ UNCHANGED <<vars, tw, sleepTo>>
     [] c[1] = "send" ->
-         IF ~(Live /\ Quiescent) THEN Fail("send_when_model_not_quiescent")
-         ELSE IF c[3] # "x" \o ToString(next) THEN Fail("external_uid_differs")
-         ELSE ExtSend([ty |-> c[2], target |-> c[4], k |-> c[5]]) /\ Ok /\ UNCHANGED aux
+         IF ~Live THEN Fail("send_to_a_finished_run")
+         ELSE IF c[3] # "x" \o ToString(next) /\ ~Tr.free_uids THEN Fail("external_uid_differs")
+         ELSE ExtSendUid([ty |-> c[2], target |-> c[4], k |-> c[5]], c[3]) /\ Ok /\ UNCHANGED aux
     [] c[1] = "cancel" ->
-         IF ~(Live /\ Quiescent) THEN Fail("cancel_when_model_not_quiescent")
-         ELSE ExtCancel /\ Ok /\ UNCHANGED aux
+         IF ~Live THEN Fail("cancel_of_a_finished_run")
+         ELSE ExtCancelBody /\ Ok /\ UNCHANGED aux
     [] c[1] = "advance" ->
          IF ~(Live /\ Quiescent /\ wake # {}) THEN Fail("advance_when_model_not_quiescent_or_no_timer")
          ELSE /\ Advance
@@ -136,7 +142,8 @@ Consume ==
        [] OTHER -> Fail("unknown_line")
 
 Done == /\ (verdict # "ok" \/ l > Len(Tr.log))
-        /\ PrintT(<<"VERDICT", tid, verdict, l>>)          \* l = the line that was not matched (Len+1 if all were)
+        \* l = the line that was not matched (Len+1 if all were); the rest helps reading a rejection
+        /\ PrintT(<<"VERDICT", tid, verdict, l, phase, Len(buf), Len(pend), outcome, pull.st, Len(mailbox)>>)
         /\ UNCHANGED tvars
 TraceNext == Silent \/ Clock \/ Consume \/ Done
 =============================================================================
